@@ -140,3 +140,70 @@ Proof.
   - intro H. vm_compute in H. repeat (destruct H as [H|H]; [discriminate H|]). exact H.
   - split; [vm_compute; tauto|]. intros U f c. apply decode_binds_only_its_names. exact N1.
 Qed.
+
+(* C05: `for k, v := range jso.a { probe(k, v) }` -- the body is one callback,
+   which neither breaks nor fails, from any context with no pending depth: the
+   premise of vloop_visits_all holds, so the body is entered once per element,
+   in order, for every array *)
+Definition e_range_text : bytes := bs ("for k, v := range jso.a {" ++ enl ++ "probe(k, v)" ++ enl ++ "}" ++ enl).
+Definition e_loop : node := hd node0 (fst (parse_pure enames e_range_text)).
+Definition e_probe : node := hd node0 (child e_loop).
+
+Opaque e_probe.
+Lemma e_body_never_breaks f c0 c1 br :
+  brkD c0 = 0 -> body (follow (testU None) (S f)) (child e_loop) c0 false = (c1, br) ->
+  (br = BNone \/ br = BCont) /\ brkD c1 = 0.
+Proof.
+  intros H0 Hb.
+  change (child e_loop) with [e_probe] in Hb. cbn [body] in Hb.
+  assert (Ef : exists fn, u_cb (testU None) (src e_probe) = Some fn /\ forall n a, fn n a = None).
+  { eexists. split; [vm_compute; reflexivity|]. intros n a. reflexivity. }
+  destruct Ef as [fn [Eu Hn]].
+  rewrite (follow_callback (testU None) f e_probe c0 fn) in Hb; [|vm_compute; reflexivity|vm_compute; reflexivity|exact Eu].
+  destruct (collect_args_exact (args e_probe) c0 []) as [_ (_ & _ & _ & Hk & _)].
+  destruct (collect_args c0 (args e_probe) []) as [c2 a]. cbn [fst] in Hk.
+  unfold log_call in Hb. cbv zeta in Hb. rewrite !Hn in Hb. cbn [body] in Hb.
+  inversion Hb; subst. split; [left; reflexivity|]. cbn [brkD w_trace w_ncalls]. congruence.
+Qed.
+
+Transparent e_probe.
+Example e_range_visits_all xs c f :
+  brkD c = 0 ->
+  map (fun e => (fst (fst e), snd (fst e))) (vloop_entries (follow (testU None) (S f)) e_loop xs 0 c false) =
+  combine (seq 0 (List.length xs)) xs.
+Proof. intro H. apply vloop_visits_all; [apply e_body_never_breaks|exact H]. Qed.
+
+(* C07: a parsed switch over a document value; the scan finds the second case *)
+Definition e_switch_text : bytes :=
+  bs ("switch jso.n {" ++ enl ++ "case 7:" ++ enl ++ "obj.Status = 1" ++ enl ++ "case 42:" ++ enl ++ "obj.Status = 2" ++ enl ++
+      "default:" ++ enl ++ "obj.Status = 3" ++ enl ++ "}" ++ enl).
+Definition e_switch : node := hd node0 (fst (parse_pure enames e_switch_text)).
+
+Example e_switch_second_case :
+  typ e_switch = typeSwitch /\ switchArg e_switch <> [] /\
+  (exists c1 c2 e, no_match e_switch (firstn 1 (child e_switch)) e_ctx c1 /\
+                   classic_verdict e_switch (nth 1 (child e_switch) node0) c1 false = (c2, true, e, false)) /\
+  store (fst (follow (testU None) 6 e_switch e_ctx)) = [Obj [(bs "Id", FStr []); (bs "Status", FInt 64 2)] [] []].
+Proof.
+  split; [vm_compute; reflexivity|]. split; [vm_compute; discriminate|]. split.
+  - eexists. eexists. eexists. split.
+    + eapply nm_cons; [vm_compute; reflexivity|apply nm_nil].
+    + vm_compute. reflexivity.
+  - vm_compute. reflexivity.
+Qed.
+
+(* C03: a parsed condition with the literal on the left; the premises of
+   cond_selects_branch hold and the first branch runs *)
+Definition e_cond_text : bytes :=
+  bs ("if 5 < jso.n {" ++ enl ++ "obj.Status = 1" ++ enl ++ "} else {" ++ enl ++ "obj.Status = 2" ++ enl ++ "}" ++ enl).
+Definition e_cond : node := hd node0 (fst (parse_pure enames e_cond_text)).
+
+Example e_cond_literal_left :
+  typ e_cond = typeCond /\ condHlp e_cond = [] /\ condStaticL e_cond = true /\ condStaticR e_cond = false /\
+  (exists c', node_cmp e_ctx e_cond = (c', true, None) /\ cerr c' = None) /\
+  store (fst (follow (testU None) 6 e_cond e_ctx)) = [Obj [(bs "Id", FStr []); (bs "Status", FInt 64 1)] [] []].
+Proof.
+  repeat (split; [vm_compute; reflexivity|]). split.
+  - eexists. split; vm_compute; reflexivity.
+  - vm_compute. reflexivity.
+Qed.
